@@ -82,7 +82,7 @@ def solver_layout(tu=STU, flt='nano::solver_t', solver_cls='nano::solver_t', loc
 def solver_targets():
     def common():
         track = frame.make_track(lvalue_hooks=[frame.param_ref_hook()])
-        return dict(types=STYPES, opaque=SOLVER_ERASED, hooks=[frame.param_ref_hook(), track.expr_hook], stmt_hooks=[track.stmt_hook], uf_float=False,
+        return dict(types=STYPES, opaque=SOLVER_ERASED, hooks=[frame.param_ref_hook(), track.expr_hook], stmt_hooks=[track.stmt_hook], uf_float=True,
                     calls=SCALLS, members=SMEMBERS, aggregates=['struct nv_tuple_b_f64'])
     LTU = 'src/solver/lsearch.cpp'
     ctor = lambda: Fn('lsearch_ctor', LTU, 'lsearch_t', flt='nano::lsearch_t', kinds=('CXXConstructorDecl',), self_struct='struct nv_lsearch', **common())
@@ -137,13 +137,15 @@ def dataset_layout(tu=ITU, iterators=True):
           dict(tu=tu, cls='nano::dataset_t', cname='struct nv_dataset', bases=CLONABLE, ptr=DPTR)]
     if iterators:
         cl += [dict(tu=tu, cls='nano::select_iterator_t::buffer_t', cname='struct nv_selbuf', flt=IFLT, bases=CLONABLE, ptr=DPTR),
+               dict(text='NV_SELBUFS'),
                dict(tu=tu, cls='nano::targets_iterator_t', cname='struct nv_titer', flt=IFLT, bases=CLONABLE, ptr=DPTR),
                dict(tu=tu, cls='nano::flatten_iterator_t', cname='struct nv_fiter', flt=IFLT, bases=CLONABLE, ptr=DPTR),
                dict(tu=tu, cls='nano::select_iterator_t', cname='struct nv_siter', flt=IFLT, bases=CLONABLE, ptr=DPTR)]
     bases = dict(CLONABLE)
     bases.update({'nano::base_dataset_iterator_t': IFLT, 'nano::targets_iterator_t': IFLT})
     for c in cl:
-        c['bases'] = bases
+        if 'text' not in c:
+            c['bases'] = bases
     lay = frame.Layout(cl, types=DTYPES, base_tu=tu)
 
     def pre():
@@ -175,7 +177,7 @@ def iterator_targets():
 
     def common(self_struct):
         track = frame.make_track()
-        return dict(types=DTYPES, opaque=frame.ERASED, stmt_hooks=[track.stmt_hook], hooks=[track.expr_hook], uf_float=False, self_struct=self_struct,
+        return dict(types=DTYPES, opaque=frame.ERASED, stmt_hooks=[track.stmt_hook], hooks=[track.expr_hook], uf_float=True, self_struct=self_struct,
                     calls=ICALLS, members=IMEMBERS)
     tmap = lambda: Fn('titer_targets_map', ITU, 'targets', flt=IFLT, select=lambda d: mg('targets_iterator_t7targets')(d) and nparams(1)(d), **common('struct nv_titer'))
     tget = lambda: Fn('titer_targets', ITU, 'targets', flt=IFLT, select=lambda d: mg('targets_iterator_t7targets')(d) and nparams(2)(d), **common('struct nv_titer'))
@@ -224,6 +226,7 @@ def objective_layout(tu, flt, fun_cls, fun_cname, acc_cls, acc_cname):
         dict(tu='src/loss.cpp', cls='nano::loss_t', cname='struct nv_loss', bases=CLONABLE),
         dict(tu='src/linear/function.cpp', cls='nano::linear::accumulator_t', cname='struct nv_lacc', bases=bases),
         dict(tu='src/gboost/function.cpp', cls='nano::gboost::accumulator_t', cname='struct nv_gacc', bases=bases),
+        dict(text='NV_ACCS'),
         dict(tu=tu, cls=fun_cls, flt=flt, cname=fun_cname, bases=bases, ptr=OPTR, fields=ROWS if 'gboost' in fun_cls else {})],
         types=OTYPES, base_tu='src/loss.cpp')
 
@@ -239,7 +242,7 @@ def objective_targets():
     def common(lay, self_struct, rows=()):
         rsh = frame.rows_slice_hook(set(rows))
         track = frame.make_track(rows_fields=rows, effect_hooks=[rsh])
-        return dict(types=OTYPES, opaque=OBJ_ERASED, stmt_hooks=[track.stmt_hook], uf_float=False, self_struct=self_struct,
+        return dict(types=OTYPES, opaque=OBJ_ERASED, stmt_hooks=[track.stmt_hook], uf_float=True, self_struct=self_struct,
                     hooks=[rsh, frame.ref_member_hook(lay.ref_fields), track.expr_hook],
                     calls=[(r'^operator\[\]\|.*\|std::vector<nano::linear::accumulator_t', '(*nv_lacc_at({&0}, {1}))'),
                            (r'^operator\[\]\|.*\|std::vector<nano::gboost::accumulator_t', '(*nv_gacc_at({&0}, {1}))')] + PURE,
@@ -276,7 +279,7 @@ def loss_targets(tier='quick'):
 
     def common():
         track = frame.make_track(lvalue_hooks=[frame.param_ref_hook()])
-        return dict(types=LTYPES, opaque=frame.ERASED, hooks=[frame.param_ref_hook(), track.expr_hook], stmt_hooks=[track.stmt_hook], uf_float=False,
+        return dict(types=LTYPES, opaque=frame.ERASED, hooks=[frame.param_ref_hook(), track.expr_hook], stmt_hooks=[track.stmt_hook], uf_float=True,
                     self_struct='struct nv_loss', calls=PURE,
                     members=[(r'^(error|value|vgrad)\|nano::(pinball_)?loss_t \*\|#3', 'nv_loss_virtual({self}, {0}, {1}, {2})')])
 
@@ -337,7 +340,7 @@ def tune_targets():
     def common(**kw):
         gh = frame.grid_cell_hook(set(GRID))
         track = frame.make_track(rows_fields=tuple(GRID), effect_hooks=[gh])
-        d = dict(types=TTYPES, opaque=TUNE_ERASED, hooks=[gh, frame.uf_int_hook, track.expr_hook], stmt_hooks=[track.stmt_hook], uf_float=False,
+        d = dict(types=TTYPES, opaque=TUNE_ERASED, hooks=[gh, frame.uf_int_hook, track.expr_hook], stmt_hooks=[track.stmt_hook], uf_float=True,
                  calls=[(r'^operator\[\]\|[^|]*const_reference[^|]*\|.*std::vector<std::any', '(*nv_cell_rd({&0}, {1}))'),
                         (r'^operator\[\]\|[^|]*\|.*std::vector<std::any', '(*nv_cell_at({&0}, {1}))'),
                         (r'^operator\[\]\|[^|]*const_reference[^|]*\|.*(strings_t|std::vector<std::(__cxx11::)?basic_string)', '(*nv_path_rd({&0}, {1}))'),
@@ -381,7 +384,7 @@ def wlearner_targets():
 
     def common():
         track = frame.make_track()
-        return dict(types=WTYPES, opaque=WL_ERASED, hooks=[track.expr_hook], stmt_hooks=[track.stmt_hook], uf_float=False, self_struct='struct nv_wl',
+        return dict(types=WTYPES, opaque=WL_ERASED, hooks=[track.field_hook, track.expr_hook], stmt_hooks=[track.stmt_hook], uf_float=True, self_struct='struct nv_wl',
                     calls=PURE, members=[(r'^split\|nano::wlearner_t', 'nv_wl_split({self}, {&0}, {1})')])
     ops = [('stump_predict_op', 'src/wlearner/stump.cpp', 'nano::stump_wlearner_t', 0), ('affine_predict_op', 'src/wlearner/affine.cpp', 'nano::affine_wlearner_t', 0),
            ('hinge_predict_op_left', 'src/wlearner/hinge.cpp', 'nano::hinge_wlearner_t', 0), ('hinge_predict_op_right', 'src/wlearner/hinge.cpp', 'nano::hinge_wlearner_t', 1),
@@ -389,6 +392,23 @@ def wlearner_targets():
     for cname, tu, cls, li in ops:
         f = Fn(cname, tu, 'do_predict', flt=cls, lambda_index=li, captures=True, **common())
         ts.append(T(cname, [f], WL_H, pre=layout(tu, cls), enums=[(tu, 'nano::hinge_type')] if 'hinge' in cname else []))
+    # do_fit chunk tasks: caches[tnum]
+    fit_types = WTYPES + [(r'^std::vector<((\(anonymous namespace\)|nano::table_wlearner_t)::)?cache_t', 'struct nv_slots'), (r'^nano::wlearner_criterion$', 'int32_t')]
+    fit_erased = WL_ERASED + [r'(\(anonymous namespace\)|nano::table_wlearner_t)::cache_t$', r'^std::vector<', r'::value_type$', r'^(nano::wlearner::)?accumulator_t$']
+    fits = [('stump_fit_task', 'src/wlearner/stump.cpp', 'nano::stump_wlearner_t', 0, 'iv NV_COMMA sv'), ('affine_fit_task', 'src/wlearner/affine.cpp', 'nano::affine_wlearner_t', 0, 'i'),
+            ('hinge_fit_task', 'src/wlearner/hinge.cpp', 'nano::hinge_wlearner_t', 0, 'iv NV_COMMA sv')]
+    for k, cls in enumerate(('dense_table', 'kbest_table', 'ksplit_table', 'dstep_table')):
+        fits += [(f'{cls}_fit_task_sclass', 'src/wlearner/table.cpp', f'nano::{cls}_wlearner_t', 0, None), (f'{cls}_fit_task_mclass', 'src/wlearner/table.cpp', f'nano::{cls}_wlearner_t', 1, None)]
+    for cname, tu, cls, li, loopvars in fits:
+        c = common()
+        c.update(types=fit_types, opaque=fit_erased)
+        c['calls'] = c['calls'] + [(r'^operator\[\]\|[^|]*\|std::vector<((\(anonymous namespace\)|nano::table_wlearner_t)::)?cache_t', '(*nv_slot_at({&0}, {1}))'),
+                                   (r'^isfinite\|', 'nv_pure1({0})')]
+        f = Fn(cname, tu, 'do_fit', flt=cls, lambda_index=li, captures=True, **c)
+        contracts = f'#define NV_CONTRACT_{cname} NV_WL_FIT_TASK\n' + (f'#define NV_LOOP_{cname}_1 NV_WL_FIT_LOOP({loopvars})\n' if loopvars else '')
+        base_pre = layout(tu, cls)
+        ts.append(T(cname, [f], WL_H, pre=(lambda bp=base_pre, ct=contracts: (lambda r: (r[0] + ct, r[1]))(bp())),
+                    enums=[(tu, 'nano::hinge_type')] if 'hinge' in cname else []))
     f = Fn('dtree_do_predict', 'src/wlearner/dtree.cpp', 'do_predict', flt='nano::dtree_wlearner_t', **common())
     ts.append(T('dtree_do_predict', [f], WL_H, pre=layout('src/wlearner/dtree.cpp', 'nano::dtree_wlearner_t'), replace=['nv_wl_split']))
     return ts
@@ -413,7 +433,7 @@ def dataset_const_targets():
 
     def common():
         track = frame.make_track()
-        return dict(types=DSTYPES, opaque=frame.ERASED, hooks=[track.expr_hook], stmt_hooks=[track.stmt_hook], uf_float=False, self_struct='struct nv_dataset',
+        return dict(types=DSTYPES, opaque=frame.ERASED, hooks=[track.expr_hook], stmt_hooks=[track.stmt_hook], uf_float=True, self_struct='struct nv_dataset',
                     calls=[(r'^operator->\|', '{0}'), (r'^operator!=\|.*__normal_iterator', '({0} != {1})'), (r'^operator\+\+\|.*__normal_iterator', '(++{0})'),
                            (r'^operator\*\|.*__normal_iterator', '(*nv_gen_at(&self->m_generators, {0}))'),
                            (r'^operator\[\]\|.*\|(const )?std::vector<std::unique_ptr<nano::generator_t', '(*nv_gen_at({&0}, {1}))'),
